@@ -756,3 +756,76 @@ Section Receiver.
     unfold r, c in Hok. rewrite (detect_all m e Hm He Hl Hdet) in Hok. discriminate Hok.
   Qed.
 End Receiver.
+
+(* ------------------------------------------------------------------ *)
+(* 10. decidable side conditions and concrete instances (non-vacuity, tightness of the window) *)
+
+Lemma is_bytes_check l : forallb (fun b => b <? 256) l = true -> is_bytes l.
+Proof.
+  intros H. apply Forall_forall. intros b Hb.
+  rewrite forallb_forall in H. apply N.ltb_lt. apply H. exact Hb.
+Qed.
+
+Fixpoint bits_eqb (a b : list bool) : bool :=
+  match a, b with
+  | [], [] => true
+  | x :: a', y :: b' => Bool.eqb x y && bits_eqb a' b'
+  | _, _ => false
+  end.
+
+Lemma bits_eqb_eq a : forall b, bits_eqb a b = true -> a = b.
+Proof.
+  induction a as [|x a IH]; intros [|y b] H; try discriminate H; [reflexivity|].
+  cbn [bits_eqb] in H. apply andb_prop in H as [H1 H2].
+  apply eqb_prop in H1. subst y. f_equal. apply IH. exact H2.
+Qed.
+
+(* the historical witness of the defect fixed by /repo commit dded641: the encoding of
+   EoF{PositiveLimitReached, checksum 11840, size 100, fault location U8(1)}, ids 1/7/2, CRC on *)
+Definition witness_msg : list N :=
+  [34; 0; 15; 0; 1; 7; 2; 4; 16; 0; 0; 46; 64; 0; 0; 0; 100; 6; 0; 1].
+(* bit 0x10 of the condition octet (octet 8) *)
+Definition witness_err : list N := repeat 0 8 ++ [16] ++ repeat 0 13.
+
+Lemma witness_facts :
+  is_bytes witness_msg /\ is_bytes witness_err /\
+  crc_bytes witness_msg = [77; 183] /\
+  crc_flag_of_header witness_msg = true /\
+  frame_len_of_header witness_msg = Some (length witness_msg + 2)%nat /\
+  length witness_err = length (witness_msg ++ crc_bytes witness_msg) /\
+  fixed_header_untouched witness_err /\
+  single_bit_error witness_err /\ burst_error 16 witness_err /\ odd_weight_error witness_err.
+Proof.
+  splits; try (vm_compute; reflexivity); try (apply is_bytes_check; vm_compute; reflexivity).
+  - apply (single_of_structure _ 67 108). vm_compute. reflexivity.
+  - apply (burst_of_structure 16 _ 67 [true] 108); [vm_compute; reflexivity | cbn; lia | cbn; lia].
+Qed.
+
+(* two flips 9 bits apart in the checksum field of the same frame *)
+Definition witness_err2 : list N := repeat 0 10 ++ [1; 1] ++ repeat 0 10.
+Lemma witness_err2_double : is_bytes witness_err2 /\
+  length witness_err2 = length (witness_msg ++ crc_bytes witness_msg) /\
+  fixed_header_untouched witness_err2 /\ double_bit_error 32767 witness_err2.
+Proof.
+  splits; try (vm_compute; reflexivity); try (apply is_bytes_check; vm_compute; reflexivity).
+  apply (double_of_structure 32767 _ 87 7 80); [reflexivity | vm_compute; reflexivity].
+Qed.
+
+(* the window of the double-bit theorem cannot be widened: two flips exactly 32767 bit positions
+   apart (bits 32 and 32799 of a frame of 4102 octets) go unnoticed *)
+Definition far_msg : list N := repeat 0 (N.to_nat 4100).
+Definition far_err : list N := [0; 0; 0; 0; 128] ++ repeat 0 (N.to_nat 4094) ++ [1; 0; 0].
+
+Lemma double_bit_window_tight :
+  is_bytes far_msg /\ is_bytes far_err /\ length far_err = length (far_msg ++ crc_bytes far_msg) /\
+  fixed_header_untouched far_err /\ double_bit_error 32768 far_err /\
+  crc_frame_ok (xor_bytes (far_msg ++ crc_bytes far_msg) far_err) = true.
+Proof.
+  split; [apply is_bytes_check; vm_compute; reflexivity|].
+  split; [apply is_bytes_check; vm_compute; reflexivity|].
+  split; [vm_compute; reflexivity|].
+  split; [reflexivity|].
+  split; [|vm_compute; reflexivity].
+  apply (double_of_structure 32768 far_err 32 (N.to_nat 32766) 16); [vm_compute; reflexivity|].
+  apply bits_eqb_eq. vm_compute. reflexivity.
+Qed.
